@@ -48,7 +48,26 @@ func c08ConcurrentScenarios(tier string) []*Scenario {
 			for len(w.Pending) > 0 {
 				w.Deliver(0)
 			}
-		}}}
+		}},
+		// the pod asking for two ranges is the next incarnation of a pod whose delete event is handled at the same time
+		{Name: "multi-ip-bind/vs-late-unbind", Class: "concurrent", Cfg: cfg, Bounds: b, Weight: 3,
+			Build: func(w *world.World) []Thread {
+				sts.setWorkload(w, 3)
+				x := sts.pod(1)
+				x.Ranges = `[["10.10.1.1"],["10.10.1.2~10.10.1.3"]]`
+				w.CreatePod(x)
+				mustSchedule(w, x.Key())
+				w.DeletePod(x.Key())
+				old := takePending(w)
+				w.Bindings = nil
+				w.CreatePod(x)
+				return []Thread{{"deliver-old", deliverAll(w, old)}, {"sched-x", scheduleRetry(w, x.Key(), 2)}}
+			},
+			Final: func(w *world.World) {
+				for len(w.Pending) > 0 {
+					w.Deliver(0)
+				}
+			}}}
 }
 
 func oracleC08Concurrent(w *world.World, s *coop.Sched, final bool) *Finding {
